@@ -12,52 +12,54 @@ import (
 	"github.com/feichai0017/NoKV/raftstore/peer"
 )
 
-func (s *Store) validateCommand(req *pb.RaftCmdRequest) (*peer.Peer, manifest.RegionMeta, *pb.RaftCmdResponse, error) {
+// validateCommand also returns the raft term in which the peer was observed as
+// leader (zero unless a peer is returned).
+func (s *Store) validateCommand(req *pb.RaftCmdRequest) (*peer.Peer, manifest.RegionMeta, *pb.RaftCmdResponse, uint64, error) {
 	if s == nil {
-		return nil, manifest.RegionMeta{}, nil, fmt.Errorf("raftstore: store is nil")
+		return nil, manifest.RegionMeta{}, nil, 0, fmt.Errorf("raftstore: store is nil")
 	}
 	if req == nil {
-		return nil, manifest.RegionMeta{}, nil, fmt.Errorf("raftstore: command is nil")
+		return nil, manifest.RegionMeta{}, nil, 0, fmt.Errorf("raftstore: command is nil")
 	}
 	if req.Header == nil {
 		req.Header = &pb.CmdHeader{}
 	}
 	regionID := req.Header.GetRegionId()
 	if regionID == 0 {
-		return nil, manifest.RegionMeta{}, nil, fmt.Errorf("raftstore: region id missing")
+		return nil, manifest.RegionMeta{}, nil, 0, fmt.Errorf("raftstore: region id missing")
 	}
 	meta, ok := s.RegionMetaByID(regionID)
 	if !ok {
 		resp := &pb.RaftCmdResponse{Header: req.Header, RegionError: epochNotMatchError(nil)}
-		return nil, manifest.RegionMeta{}, resp, nil
+		return nil, manifest.RegionMeta{}, resp, 0, nil
 	}
 	if err := validateRegionEpoch(req.Header.GetRegionEpoch(), meta); err != nil {
 		resp := &pb.RaftCmdResponse{Header: req.Header, RegionError: err}
-		return nil, meta, resp, nil
+		return nil, meta, resp, 0, nil
 	}
 	if err := validateRequestKeys(meta, req); err != nil {
 		resp := &pb.RaftCmdResponse{Header: req.Header, RegionError: err}
-		return nil, meta, resp, nil
+		return nil, meta, resp, 0, nil
 	}
 	peer := s.regions.peer(regionID)
 	if peer == nil {
 		resp := &pb.RaftCmdResponse{Header: req.Header, RegionError: epochNotMatchError(&meta)}
-		return nil, meta, resp, nil
+		return nil, meta, resp, 0, nil
 	}
 	status := peer.Status()
 	if status.RaftState != myraft.StateLeader {
 		resp := &pb.RaftCmdResponse{Header: req.Header, RegionError: notLeaderError(meta, status.Lead)}
-		return nil, meta, resp, nil
+		return nil, meta, resp, 0, nil
 	}
 	req.Header.PeerId = peer.ID()
-	return peer, meta, nil, nil
+	return peer, meta, nil, status.Term, nil
 }
 
 // ProposeCommand submits a raft command to the leader hosting the target
 // region. When the store is not leader or the request header is invalid the
 // returned response includes an appropriate RegionError.
 func (s *Store) ProposeCommand(req *pb.RaftCmdRequest) (*pb.RaftCmdResponse, error) {
-	peer, _, resp, err := s.validateCommand(req)
+	peer, _, resp, term, err := s.validateCommand(req)
 	if err != nil {
 		return nil, err
 	}
@@ -65,7 +67,7 @@ func (s *Store) ProposeCommand(req *pb.RaftCmdRequest) (*pb.RaftCmdResponse, err
 		return resp, nil
 	}
 	if req.Header.RequestId == 0 {
-		req.Header.RequestId = s.command.nextProposalID()
+		req.Header.RequestId = s.command.nextProposalID(term)
 	}
 	id := req.Header.RequestId
 	prop, err := s.command.registerProposal(id)
@@ -100,7 +102,7 @@ func (s *Store) ProposeCommand(req *pb.RaftCmdRequest) (*pb.RaftCmdResponse, err
 // leader. The command must only include read operations (Get/Scan). The method
 // returns a RegionError when the store is not leader for the target region.
 func (s *Store) ReadCommand(req *pb.RaftCmdRequest) (*pb.RaftCmdResponse, error) {
-	peer, meta, regionResp, err := s.validateCommand(req)
+	peer, meta, regionResp, term, err := s.validateCommand(req)
 	if err != nil {
 		return nil, err
 	}
@@ -120,7 +122,7 @@ func (s *Store) ReadCommand(req *pb.RaftCmdRequest) (*pb.RaftCmdResponse, error)
 		req.Header = &pb.CmdHeader{}
 	}
 	if s.command != nil && req.Header.GetRequestId() == 0 {
-		req.Header.RequestId = s.command.nextProposalID()
+		req.Header.RequestId = s.command.nextProposalID(term)
 	}
 	ctx, cancel := context.WithTimeout(context.Background(), 3*time.Second)
 	defer cancel()
